@@ -12,7 +12,7 @@ Local Open Scope Z_scope.
 Record state := mk { count : Z; segs : list Z; next : Z }.
 
 Inductive op := AddBack | Reserve (c : Z) | ShrinkTo (c : Z) | ShrinkFit | SetCount (c : Z) | RemoveBack (n : Z)
-              | Clear (shrink : bool) | AddBackNogrow | Insert | Remove.
+              | Clear (shrink : bool) | AddBackNogrow | InsertN (n : Z).
 
 Definition len (st : state) : Z := Z.of_nat (length (segs st)).
 Fixpoint fresh (n : nat) (from : Z) : list Z := match n with O => [] | S n => from :: fresh n (from + 1) end.
@@ -63,8 +63,9 @@ Definition step (st : state) (o : op) : option state :=
   | Clear false => Some (with_count st 0)
   | Clear true => Some (dec_capacity (with_count st 0) 0)
   | AddBackNogrow => if Z.ltb (count st) (capacity st) then Some (with_count st (count st + 1)) else Some st
-  | Insert => let st := reserve st (count st + 1) in Some (with_count st (count st + 1))
-  | Remove => if Z.ltb 0 (count st) then Some (with_count st (count st - 1)) else Some st
+  (* Insert(index, n items) = Reserve(mCount + n) + ArrayShifter::InsertNogrow (n x AddBackNogrow + assignments);
+     Remove(index, n) / Remove(filter) = assignments + RemoveBack(n): the driver uses RemoveBack for them *)
+  | InsertN n => let st := reserve st (count st + n) in Some (with_count st (count st + n))
   end.
 
 (* address of element i: (allocation id of its segment, offset) *)
@@ -82,13 +83,15 @@ Hypothesis seg_mono : forall i i', 0 <= i < i' -> i' < maxi ->
 Hypothesis seg_bound : forall c, 0 <= c < maxi -> fst (seg c) + 1 <= SC.
 Hypothesis cap_lt : forall sc i, 0 <= sc <= SC -> 0 <= i < maxi -> (i < idx sc 0 <-> fst (seg i) < sc).
 Hypothesis maxi_pos : 0 < maxi.
+Hypothesis idx_zero : idx 0 0 = 0.
 
 Definition inv (st : state) : Prop :=
   0 <= count st < maxi /\ len st <= SC /\ (forall i, 0 <= i < count st -> fst (seg i) < len st).
 
 Definition op_ok (st : state) (o : op) : Prop :=
   match o with
-  | AddBack | AddBackNogrow | Insert => count st + 1 < maxi
+  | AddBack | AddBackNogrow => count st + 1 < maxi
+  | InsertN n => 0 <= n /\ count st + n < maxi
   | Reserve c | ShrinkTo c | SetCount c => 0 <= c < maxi
   | RemoveBack n => 0 <= n
   | _ => True
@@ -250,19 +253,14 @@ Proof.
       unfold inv, with_count, len in *; cbn [count segs] in *. repeat split; try lia.
       intros i Hi. apply (cap_lt (len st) i); [unfold len in *; lia|lia|]. unfold capacity in *. lia.
     + eexists; split; [reflexivity|]. split; [assumption|intros _; apply compat_refl].
-  - (* Insert = Reserve(count + 1) + InsertNogrow *)
-    unfold reserve. destruct (Z.ltb_spec (capacity st) (count st + 1)).
-    + destruct (inc_capacity_spec st (count st + 1) Hinv ltac:(lia) H) as (E1 & [l E2] & E3 & E4).
+  - (* InsertN = Reserve(count + n) + InsertNogrow *)
+    destruct Hok as [Hn0 Hn]. unfold reserve. destruct (Z.ltb_spec (capacity st) (count st + n)).
+    + destruct (inc_capacity_spec st (count st + n) Hinv ltac:(lia) H) as (E1 & [l E2] & E3 & E4).
       eexists; split; [reflexivity|]. split; [|intros _; cbn [with_count segs]; rewrite E2; apply compat_app].
       unfold inv, with_count, len in *; cbn [count segs] in *. repeat split; try lia. intros i Hi. apply E4; lia.
     + eexists; split; [reflexivity|]. split; [|intros _; apply compat_refl].
       unfold inv, with_count, len in *; cbn [count segs] in *. repeat split; try lia.
-      intros i Hi. apply (cap_lt (len st) i); [unfold len in *; lia|lia|]. unfold capacity in *. lia.
-  - (* Remove *)
-    destruct (Z.ltb_spec 0 (count st)).
-    + eexists; split; [reflexivity|]. split; [|intros _; apply compat_refl].
-      unfold inv, with_count, len in *; cbn [count segs] in *. repeat split; try lia. intros i Hi. apply Hcov; lia.
-    + eexists; split; [reflexivity|]. split; [assumption|intros _; apply compat_refl].
+      intros i Hi. apply (cap_lt (Z.of_nat (length (segs st))) i); [lia|lia|]. unfold capacity, len in *. lia.
 Qed.
 
 (* growing (and shrinking) never changes the address of an element that exists before and after *)
@@ -297,6 +295,208 @@ Theorem reachable_inv st : reachable st -> inv st.
 Proof.
   induction 1; [apply inv_empty|].
   destruct (step_spec st o IHreachable H0) as (st2 & E & I & _). rewrite H1 in E. inversion E; subst. exact I.
+Qed.
+
+(* ---------------------------------------------------------------- ids: every segment id is below the id counter *)
+Definition ids_lt (st : state) : Prop := Forall (fun id => id < next st) (segs st).
+
+Lemma fresh_range n from : Forall (fun id => from <= id < from + Z.of_nat n) (fresh n from).
+Proof.
+  revert from; induction n; intros; [constructor|].
+  cbn [fresh]. constructor; [lia|]. eapply Forall_impl; [|apply IHn]. cbn beta. intros a Ha. lia.
+Qed.
+
+Lemma ids_lt_inc st c : ids_lt st -> ids_lt (inc_capacity st c) /\ next st <= next (inc_capacity st c).
+Proof.
+  intros H. unfold inc_capacity. destruct (seg c) as [s j]. unfold ids_lt; cbn [segs next]. split; [|lia].
+  apply Forall_app. split.
+  - eapply Forall_impl; [|exact H]. cbn beta. intros a Ha. lia.
+  - eapply Forall_impl; [|apply fresh_range]. cbn beta. intros a Ha. lia.
+Qed.
+
+Lemma Forall_firstn {A} (P : A -> Prop) n l : Forall P l -> Forall P (firstn n l).
+Proof. revert l; induction n; intros l H; [constructor|]. destruct l; [constructor|]. inversion H; subst. constructor; auto. Qed.
+
+Lemma ids_lt_dec st c : ids_lt st -> ids_lt (dec_capacity st c) /\ next (dec_capacity st c) = next st.
+Proof.
+  intros H. unfold dec_capacity. destruct (seg c) as [s j]. unfold ids_lt; cbn [segs next]. split; [|reflexivity].
+  apply Forall_firstn. exact H.
+Qed.
+
+Lemma step_ids st o st' : step st o = Some st' -> ids_lt st -> ids_lt st' /\ next st <= next st'.
+Proof.
+  intros E H.
+  assert (Hwc : forall s c, ids_lt s -> ids_lt (with_count s c) /\ next (with_count s c) = next s) by (intros; split; [assumption|reflexivity]).
+  destruct o; cbn [step] in E.
+  - destruct (seg (count st)) as [s j]. destruct (Z.ltb s (len st)); [inversion E; subst; split; [exact H|cbn; lia]|].
+    destruct (Z.eqb j 0); [|discriminate]. inversion E; subst. unfold ids_lt; cbn [segs next]. split; [|lia].
+    apply Forall_app. split; [eapply Forall_impl; [|exact H]; cbn beta; intros a Ha; lia|constructor; [lia|constructor]].
+  - inversion E; subst. unfold reserve. destruct (Z.ltb (capacity st) c); [apply ids_lt_inc; exact H|split; [exact H|lia]].
+  - destruct (Z.leb (capacity st) c); inversion E; subst; [split; [exact H|lia]|].
+    destruct (ids_lt_dec st (if c <? count st then count st else c) H) as [A B]. split; [exact A|lia].
+  - destruct (Z.leb (capacity st) (count st)); inversion E; subst; [split; [exact H|lia]|].
+    destruct (ids_lt_dec st (count st) H) as [A B]. split; [exact A|lia].
+  - destruct (Z.ltb c (count st)); [inversion E; subst; split; [exact H|cbn; lia]|].
+    destruct (Z.ltb (count st) c); [|inversion E; subst; split; [exact H|lia]].
+    inversion E; subst. destruct (Z.ltb (capacity st) c); [|split; [exact H|cbn; lia]].
+    destruct (ids_lt_inc st c H) as [A B]. split; [exact A|cbn [with_count next]; lia].
+  - destruct (Z.leb n (count st)); inversion E; subst; split; try exact H; cbn; lia.
+  - destruct shrink; inversion E; subst.
+    + destruct (ids_lt_dec (with_count st 0) 0 H) as [A B]. split; [exact A|rewrite B; cbn; lia].
+    + split; [exact H|cbn; lia].
+  - destruct (Z.ltb (count st) (capacity st)); inversion E; subst; split; try exact H; cbn; lia.
+  - inversion E; subst. unfold reserve. destruct (Z.ltb (capacity st) (count st + n)).
+    + destruct (ids_lt_inc st (count st + n) H) as [A B]. split; [exact A|cbn [with_count next]; lia].
+    + split; [exact H|cbn; lia].
+Qed.
+
+(* ---------------------------------------------------------------- two arrays: move / swap / copy between them
+   (SegmentedArray(SegmentedArray&&), operator=(SegmentedArray&&), Swap, SegmentedArray(const&), SegmentedArray(const&, shrink)) *)
+Record world := mkw { ca : Z; sa : list Z; cb : Z; sb : list Z; nx : Z }.
+Inductive wop := OnA (o : op) | OnB (o : op) | MoveAB | MoveBA | SwapAB | CopyAB (shrink : bool) | CopyBA (shrink : bool).
+Definition stA (w : world) : state := mk (ca w) (sa w) (nx w).
+Definition stB (w : world) : state := mk (cb w) (sb w) (nx w).
+
+(* copy constructor: pvIncCapacity(0, shrink ? count : capacity) on an empty array, then count x AddBackNogrow *)
+Definition copy_of (src : state) (shrink : bool) : state :=
+  let cap := if shrink then count src else capacity src in
+  with_count (inc_capacity (mk 0 [] (next src)) cap) (count src).
+
+Definition wstep (w : world) (o : wop) : option world :=
+  match o with
+  | OnA o => match step (stA w) o with Some s => Some (mkw (count s) (segs s) (cb w) (sb w) (next s)) | None => None end
+  | OnB o => match step (stB w) o with Some s => Some (mkw (ca w) (sa w) (count s) (segs s) (next s)) | None => None end
+  | MoveAB => Some (mkw 0 [] (ca w) (sa w) (nx w))          (* B steals A's segment table; B's old segments are freed *)
+  | MoveBA => Some (mkw (cb w) (sb w) 0 [] (nx w))
+  | SwapAB => Some (mkw (cb w) (sb w) (ca w) (sa w) (nx w))
+  | CopyAB sh => let s := copy_of (stA w) sh in Some (mkw (ca w) (sa w) (count s) (segs s) (next s))
+  | CopyBA sh => let s := copy_of (stB w) sh in Some (mkw (count s) (segs s) (cb w) (sb w) (next s))
+  end.
+
+Definition wop_ok (w : world) (o : wop) : Prop :=
+  match o with
+  | OnA o => op_ok (stA w) o | OnB o => op_ok (stB w) o
+  | CopyAB false => capacity (stA w) < maxi | CopyBA false => capacity (stB w) < maxi
+  | _ => True
+  end.
+
+Definition winv (w : world) : Prop := inv (stA w) /\ inv (stB w) /\ ids_lt (stA w) /\ ids_lt (stB w).
+
+(* move and swap keep every element at its address: the segment table itself changes hands *)
+Theorem move_steals w : forall w', wstep w MoveAB = Some w' ->
+  (forall i, addr (stB w') i = addr (stA w) i) /\ cb w' = ca w /\ ca w' = 0 /\ sa w' = [].
+Proof. intros w' E. inversion E; subst. cbn. repeat split; reflexivity. Qed.
+
+Theorem swap_exchanges w : forall w', wstep w SwapAB = Some w' ->
+  (forall i, addr (stB w') i = addr (stA w) i) /\ (forall i, addr (stA w') i = addr (stB w) i) /\ cb w' = ca w /\ ca w' = cb w.
+Proof. intros w' E. inversion E; subst. cbn. repeat split; reflexivity. Qed.
+
+Lemma count_le_capacity st : inv st -> 0 <= capacity st -> count st <= capacity st.
+Proof.
+  intros (Hc & Hl & Hcov) H0. destruct (Z.eq_dec (count st) 0); [lia|].
+  specialize (Hcov (count st - 1) ltac:(lia)).
+  apply (cap_lt (len st) (count st - 1)) in Hcov; [unfold capacity; lia|pose proof (len_nonneg st); lia|lia].
+Qed.
+
+(* a copy has the same count, satisfies the invariant, and consists ONLY of fresh segments (ids >= the old id counter) *)
+Lemma copy_of_spec src sh : inv src -> ids_lt src -> (sh = false -> capacity src < maxi) ->
+  let s := copy_of src sh in
+  inv s /\ count s = count src /\ Forall (fun id => next src <= id < next s) (segs s) /\ next src <= next s.
+Proof.
+  intros Hinv Hids Hcap s. pose proof Hinv as (Hc & Hl & Hcov).
+  set (cap := if sh then count src else capacity src).
+  assert (Hcapnn : 0 <= capacity src).
+  { unfold capacity. pose proof (len_nonneg src). destruct (Z.eq_dec (len src) 0) as [E0|NE]; [rewrite E0, idx_zero; lia|].
+    pose proof (proj2 (cap_lt (len src) 0 ltac:(lia) ltac:(lia))) as Y. rewrite seg_zero in Y. cbn [fst] in Y. lia. }
+  assert (Hcap0 : count src <= cap /\ 0 <= cap < maxi).
+  { unfold cap. destruct sh; [lia|]. specialize (Hcap eq_refl).
+    pose proof (count_le_capacity src Hinv Hcapnn). lia. }
+  unfold s, copy_of. fold cap.
+  set (e := mk 0 [] (next src)).
+  assert (Hinve : inv e).
+  { unfold inv, e, len; cbn. repeat split; try lia. pose proof (seg_bound 0 ltac:(lia)). pose proof (seg_nonneg 0 ltac:(lia)). lia. }
+  destruct (ids_lt_inc e cap ltac:(constructor)) as [Hid Hnx].
+  assert (Hseg : segs (inc_capacity e cap) = fresh (Z.to_nat (next (inc_capacity e cap) - next src)) (next src)).
+  { unfold inc_capacity, e. destruct (seg cap) as [s0 j0]. cbn [segs next app]. f_equal. lia. }
+  assert (Hfresh : Forall (fun id => next src <= id < next (inc_capacity e cap)) (segs (inc_capacity e cap))).
+  { rewrite Hseg. eapply Forall_impl; [|apply fresh_range]. cbn beta. intros a Ha. cbn [next e] in Hnx. lia. }
+  cbn [with_count count segs next]. split; [|split; [reflexivity|split; [exact Hfresh|exact Hnx]]].
+  (* invariant of the copy *)
+  destruct (Z.eq_dec cap 0) as [C0|CN].
+  - assert (count src = 0) by lia. unfold inv; cbn [count]. rewrite H.
+    assert (El : segs (inc_capacity e cap) = []).
+    { unfold inc_capacity. rewrite C0, seg_zero. cbn. reflexivity. }
+    unfold len, with_count; cbn [segs count]. rewrite El. cbn. repeat split; try lia.
+    pose proof (seg_bound 0 ltac:(lia)). pose proof (seg_nonneg 0 ltac:(lia)). lia.
+  - assert (Hce : capacity e < cap).
+    { unfold capacity, e, len; cbn. rewrite idx_zero. lia. }
+    destruct (inc_capacity_spec e cap Hinve ltac:(lia) Hce) as (E1 & _ & E3 & E4).
+    unfold inv, len, with_count in *; cbn [count segs] in *. repeat split; try lia. intros i Hi. apply E4. lia.
+Qed.
+
+Lemma inv_nil n : inv (mk 0 [] n).
+Proof.
+  unfold inv, len; cbn. split; [lia|]. split; [|intros i Hi; lia].
+  pose proof (seg_bound 0 ltac:(lia)). pose proof (seg_nonneg 0 ltac:(lia)). lia.
+Qed.
+
+Lemma ids_lt_mono c sg n n' : ids_lt (mk c sg n) -> n <= n' -> forall c', ids_lt (mk c' sg n').
+Proof. unfold ids_lt; cbn. intros H Hn c'. eapply Forall_impl; [|exact H]. cbn beta. intros a Ha. lia. Qed.
+
+Theorem wstep_inv w o : winv w -> wop_ok w o -> exists w', wstep w o = Some w' /\ winv w'.
+Proof.
+  intros (IA & IB & DA & DB) Hok. destruct o; cbn [wstep wop_ok] in *.
+  - destruct (step_spec (stA w) o IA Hok) as (s & E & I & _). rewrite E. eexists; split; [reflexivity|].
+    destruct (step_ids _ _ _ E DA) as [D N]. destruct s as [c sg n]. cbn [stA next] in N.
+    unfold winv. cbn [stA stB ca sa cb sb nx count segs next].
+    split; [exact I|]. split; [exact IB|]. split; [exact D|]. apply (ids_lt_mono (cb w) (sb w) (nx w)); [exact DB|exact N].
+  - destruct (step_spec (stB w) o IB Hok) as (s & E & I & _). rewrite E. eexists; split; [reflexivity|].
+    destruct (step_ids _ _ _ E DB) as [D N]. destruct s as [c sg n]. cbn [stB next] in N.
+    unfold winv. cbn [stA stB ca sa cb sb nx count segs next].
+    split; [exact IA|]. split; [exact I|]. split; [|exact D]. apply (ids_lt_mono (ca w) (sa w) (nx w)); [exact DA|exact N].
+  - eexists; split; [reflexivity|]. unfold winv. cbn [stA stB ca sa cb sb nx].
+    split; [apply inv_nil|]. split; [exact IA|]. split; [constructor|exact DA].
+  - eexists; split; [reflexivity|]. unfold winv. cbn [stA stB ca sa cb sb nx].
+    split; [exact IB|]. split; [apply inv_nil|]. split; [exact DB|constructor].
+  - eexists; split; [reflexivity|]. unfold winv. cbn [stA stB ca sa cb sb nx].
+    split; [exact IB|]. split; [exact IA|]. split; [exact DB|exact DA].
+  - eexists; split; [reflexivity|].
+    destruct (copy_of_spec (stA w) shrink IA DA ltac:(intros ->; exact Hok)) as (I & C & Fr & N).
+    destruct (copy_of (stA w) shrink) as [c sg n]. cbn [count segs next stA] in *.
+    unfold winv. cbn [stA stB ca sa cb sb nx count segs next].
+    split; [exact IA|]. split; [exact I|]. split; [apply (ids_lt_mono (ca w) (sa w) (nx w)); [exact DA|exact N]|].
+    unfold ids_lt; cbn [segs next]. eapply Forall_impl; [|exact Fr]. cbn beta. intros a Ha. cbn. lia.
+  - eexists; split; [reflexivity|].
+    destruct (copy_of_spec (stB w) shrink IB DB ltac:(intros ->; exact Hok)) as (I & C & Fr & N).
+    destruct (copy_of (stB w) shrink) as [c sg n]. cbn [count segs next stB] in *.
+    unfold winv. cbn [stA stB ca sa cb sb nx count segs next].
+    split; [exact I|]. split; [exact IB|]. split; [|apply (ids_lt_mono (cb w) (sb w) (nx w)); [exact DB|exact N]].
+    unfold ids_lt; cbn [segs next]. eapply Forall_impl; [|exact Fr]. cbn beta. intros a Ha. cbn. lia.
+Qed.
+
+(* copy gives fresh addresses: same count, source untouched, and no segment of the copy is a segment of the source *)
+Theorem copy_is_fresh w sh w' : winv w -> wop_ok w (CopyAB sh) -> wstep w (CopyAB sh) = Some w' ->
+  cb w' = ca w /\ ca w' = ca w /\ sa w' = sa w /\ (forall id, In id (sb w') -> ~ In id (sa w) /\ ~ In id (sb w)).
+Proof.
+  intros (IA & IB & DA & DB) Hok E. cbn [wstep] in E. inversion E; subst; clear E. cbn [ca cb sa sb].
+  destruct (copy_of_spec (stA w) sh IA DA ltac:(intros ->; exact Hok)) as (I & C & Fr & N).
+  repeat split; try reflexivity; try exact C.
+  - intros X. rewrite Forall_forall in Fr. specialize (Fr id H). unfold ids_lt in DA. rewrite Forall_forall in DA.
+    specialize (DA id X). cbn in *. lia.
+  - intros X. rewrite Forall_forall in Fr. specialize (Fr id H). unfold ids_lt in DB. rewrite Forall_forall in DB.
+    specialize (DB id X). cbn in *. lia.
+Qed.
+
+Definition wempty : world := mkw 0 [] 0 [] 0.
+Inductive wreachable : world -> Prop :=
+| wreach_empty : wreachable wempty
+| wreach_step w o w' : wreachable w -> wop_ok w o -> wstep w o = Some w' -> wreachable w'.
+
+Theorem wreachable_inv w : wreachable w -> winv w.
+Proof.
+  induction 1.
+  - unfold winv, wempty. cbn [stA stB ca sa cb sb nx]. split; [apply inv_nil|]. split; [apply inv_nil|]. split; constructor.
+  - destruct (wstep_inv w o IHwreachable H0) as (w2 & E & I). rewrite H1 in E. inversion E; subst. exact I.
 Qed.
 
 End Model.
